@@ -49,6 +49,15 @@ for p in parts:
         if k.startswith("fault_") or k.startswith("window_") or k.startswith("probe_") or k in ("gui_impatient_stop", "ucinewgame", "clock_jumps"):
             fired[k] = fired.get(k, 0) + v
 merged["coverage"]["faults_fired"] = fired
+try:
+    import re
+    t = open("build/ev/determinism.txt").read()
+    mm = re.search(r"determinism prop=(\S+) variant=(\S+) seeds=(\d+) compared=(\d+) mismatches=(\d+)", t)
+    if mm:
+        merged["coverage"]["determinism"] = {"variant": mm.group(2), "seeds_run_twice": int(mm.group(3)), "compared": int(mm.group(4)), "mismatches": int(mm.group(5)),
+                                             "how": "every seed executed twice in fresh worker processes (16-way and 3-way split); event-trace hash, step count and node count must agree"}
+except Exception:
+    pass
 if prop == "C10":
     try:
         merged["coverage"]["valgrind"] = json.load(open("build/ev/valgrind.json"))
